@@ -4,7 +4,7 @@
 //!
 //! ops (all numbers decimal):
 //!   note <start-kind> <size-kind>            generator bookkeeping (ignored by model and judge)
-//!   file fix <path under fixtures/>          | file syn <machine> <vbase> <textoff> <load|none|short:N|long>
+//!   file fix <path under fixtures/>          | file syn <machine> <vbase> <textoff> <load|none|short:N|long|off:K>
 //!   | file fixp <path> <offset> <u32>          the fixture with one little-endian u32 patched in memory (Mach-O cpusubtype / cputype)
 //!   | file fat <path> <member index>           one member of a fat Mach-O fixture (the code is served the whole archive)
 //!   | file jit <elf machine>                   a generated JITDUMP file
@@ -439,10 +439,15 @@ fn build_syn(s: &Syn) -> Option<Bin> {
         "riscv" => (EM_RISCV, true),
         _ => return None,
     };
+    // `off:K`: the PT_LOAD starts at file offset K, so that file offset = relative address + K (not the identity)
+    let shift: u64 = match s.segmode.strip_prefix("off:") {
+        Some(k) => k.parse().ok()?,
+        None => 0,
+    };
     let text_addr = s.vbase + s.textoff;
-    let mut sections = vec![ElfSection::progbits(".text", text_addr, s.text.clone(), true).at_offset(s.textoff)];
+    let mut sections = vec![ElfSection::progbits(".text", text_addr, s.text.clone(), true).at_offset(shift + s.textoff)];
     let mut end_addr = text_addr + s.text.len() as u64;
-    let mut end_off = s.textoff + s.text.len() as u64;
+    let mut end_off = shift + s.textoff + s.text.len() as u64;
     if let Some((gap, d)) = &s.data {
         sections.push(ElfSection::progbits(".rodata", end_addr + gap, d.clone(), false).at_offset(end_off + gap));
         end_addr += gap + d.len() as u64;
@@ -458,6 +463,8 @@ fn build_syn(s: &Syn) -> Option<Bin> {
         // the PT_LOAD's file data ends `cut` bytes before the end of .text
         let filesz = (s.textoff + s.text.len() as u64).saturating_sub(cut);
         Segments::Explicit(vec![ElfSegment { p_type: PT_LOAD, flags: PF_R | PF_X, offset: 0, vaddr: s.vbase, filesz, memsz: end_addr - s.vbase + s.bss.unwrap_or(0), align: 0x1000 }])
+    } else if shift != 0 {
+        Segments::Explicit(vec![ElfSegment { p_type: PT_LOAD, flags: PF_R | PF_X, offset: shift, vaddr: s.vbase, filesz: end_off - shift, memsz: end_addr - s.vbase + s.bss.unwrap_or(0), align: 0x1000 }])
     } else if s.segmode == "long" {
         // the PT_LOAD claims file data far beyond the end of the file: `segment.data()` fails
         Segments::Explicit(vec![ElfSegment { p_type: PT_LOAD, flags: PF_R | PF_X, offset: 0, vaddr: s.vbase, filesz: 1 << 20, memsz: 1 << 20, align: 0x1000 }])
@@ -1083,6 +1090,7 @@ fn gen_syn(rng: &mut Rng) -> Vec<String> {
         2 => "long".to_string(),
         3 => format!("short:{}", rng.range(1, (text.len() as u64).min(40))),
         4 => format!("short:{}", rng.range(1, (text.len() as u64).min(40))),
+        5..=8 => format!("off:{}", rng.pick(&[0x200u64, 0x1000, 0x1234])),
         _ => "load".to_string(),
     };
     // functions: a partition of a prefix of the text
@@ -1240,7 +1248,8 @@ impl Prop for C20 {
                 let mut text = code_snippet(&mut rng, arch, 16);
                 text.extend_from_slice(pat);
                 text.extend(code_snippet(&mut rng, arch, 24));
-                let syn = Syn { machine: machine.into(), vbase: 0x10000, textoff: 0x100, segmode: "load".into(), text: text.clone(), data: None, bss: None, fsyms: vec![(0x100, text.len() as u64)], bsyms: Vec::new() };
+                let segmode = if pi % 2 == 1 { "off:4096" } else { "load" };
+                let syn = Syn { machine: machine.into(), vbase: 0x10000, textoff: 0x100, segmode: segmode.into(), text: text.clone(), data: None, bss: None, fsyms: vec![(0x100, text.len() as u64)], bsyms: Vec::new() };
                 if let Some(bin) = build_syn(&syn) {
                     for (start, size, cont) in [(0x100u32, 40u32, false), (0x110, 8, false), (0x110, 1, true), (0x100, 0, true), (0x101, 0xffff_ffff, false)] {
                         v.push(Case { name: format!("inv-{arch}-{pi}-{start}-{size}-{}", cont as u8), ops: build_case(&bin, "fixed-invalid fixed", start, size, cont) });
